@@ -16,9 +16,10 @@ if [ ! -x "$PY" ] || ! "$PY" -c "import z3" 2>/dev/null; then
   ) 9>"$VERIF/.venv.lock"
 fi
 # Cython helper: rebuild in place when the .pyx is newer than the built module
-PYX=/repo/src/pygom/model/_tau_leap.pyx
-SO=$(ls /repo/src/pygom/model/_tau_leap*.so 2>/dev/null | head -1)
+REPO="${PGV_REPO:-/repo}"
+PYX=$REPO/src/pygom/model/_tau_leap.pyx
+SO=$(ls $REPO/src/pygom/model/_tau_leap*.so 2>/dev/null | head -1)
 if [ -z "$SO" ] || [ "$PYX" -nt "$SO" ]; then
-  (cd /repo && /venv/bin/python setup.py build_ext --inplace -q) >/dev/null 2>&1 || true
+  (cd $REPO && /venv/bin/python setup.py build_ext --inplace -q) >/dev/null 2>&1 || true
 fi
 echo ok
